@@ -75,18 +75,74 @@ func c01NewStore(t *testing.T, dir, id string) (*store.Store, *c01Layer) {
 	return st, ly
 }
 
+// ---- robustness under machine load: see harness/overlay/shared/store (same rules) ----------
+// requests refused before the log are retried (60 s), ambiguous outcomes and waits that run
+// out ABANDON the program (counted, noted, not judged); more than half abandoned fails the run.
+
+type c01Abandoned struct{ why string }
+
+var c01Started, c01AbandonedN int
+
+func c01Abandon(why string) { panic(c01Abandoned{why}) }
+
+func c01Retryable(text string) bool {
+	t := strings.ToLower(text)
+	for _, m := range []string{"not leader", "leader not found", "timeout waiting for leader", "timed out enqueuing", "no leader", "not ready"} {
+		if strings.Contains(t, m) {
+			return true
+		}
+	}
+	return false
+}
+
+func c01LoadRelated(text string) bool {
+	if c01Retryable(text) {
+		return true
+	}
+	t := strings.ToLower(text)
+	for _, m := range []string{"leadership lost", "timeout", "timed out", "deadline exceeded", "shutdown"} {
+		if strings.Contains(t, m) {
+			return true
+		}
+	}
+	return false
+}
+
+func c01Retry(st *store.Store, fn func() error) error {
+	deadline := time.Now().Add(60 * time.Second)
+	for {
+		err := fn()
+		if err == nil || !c01Retryable(err.Error()) || time.Now().After(deadline) {
+			return err
+		}
+		st.WaitForLeader(5 * time.Second)
+		time.Sleep(100 * time.Millisecond)
+	}
+}
+
+// c01Must: a setup step failed: load-related abandons the program, anything else is harness breakage.
+func c01Must(t *testing.T, what string, err error) {
+	if err == nil {
+		return
+	}
+	if c01LoadRelated(err.Error()) {
+		c01Abandon(what + ": " + err.Error())
+	}
+	t.Fatalf("%s: %v", what, err)
+}
+
 func c01Ready(t *testing.T, st *store.Store) {
-	if _, err := st.WaitForLeader(15 * time.Second); err != nil {
-		t.Fatalf("leader: %v", err)
+	if _, err := st.WaitForLeader(60 * time.Second); err != nil {
+		c01Abandon(fmt.Sprintf("no leader within 60 s: %v", err))
 	}
 	var err error
-	for i := 0; i < 300; i++ {
+	for deadline := time.Now().Add(60 * time.Second); time.Now().Before(deadline); {
 		if err = st.Barrier(); err == nil {
 			return
 		}
 		time.Sleep(50 * time.Millisecond)
 	}
-	t.Fatalf("barrier: %v", err)
+	c01Abandon(fmt.Sprintf("barrier: %v", err))
 }
 
 func (n *c01Node) startHTTP() {
@@ -98,13 +154,22 @@ func (n *c01Node) startHTTP() {
 }
 
 func (n *c01Node) post(path, contentType, body string) (int, string) {
-	resp, err := http.Post("http://"+n.svc.Addr().String()+path, contentType, strings.NewReader(body))
-	if err != nil {
-		n.t.Fatalf("POST %s: %v", path, err)
+	deadline := time.Now().Add(60 * time.Second)
+	for {
+		resp, err := http.Post("http://"+n.svc.Addr().String()+path, contentType, strings.NewReader(body))
+		if err != nil {
+			n.t.Fatalf("POST %s: %v", path, err)
+		}
+		b, _ := io.ReadAll(resp.Body)
+		resp.Body.Close()
+		// refused before the log (no leader at this instant on a loaded machine): try again
+		if resp.StatusCode != 200 && c01Retryable(string(b)) && time.Now().Before(deadline) {
+			n.st.WaitForLeader(5 * time.Second)
+			time.Sleep(100 * time.Millisecond)
+			continue
+		}
+		return resp.StatusCode, string(b)
 	}
-	defer resp.Body.Close()
-	b, _ := io.ReadAll(resp.Body)
-	return resp.StatusCode, string(b)
 }
 
 const c01Dump = "SELECT id, typeof(a), quote(a), typeof(b), quote(b), typeof(c), quote(c) FROM t ORDER BY id"
@@ -229,6 +294,34 @@ func c01Program(t *testing.T, rep *vfReport, r *vfRng, nReq int, nondetEndpoint 
 	defer os.RemoveAll(dir)
 	id := fmt.Sprintf("a%d", r.Intn(1<<30))
 	a := &c01Node{t: t, dir: filepath.Join(dir, "A"), id: id}
+	var joiner *store.Store
+	c01Started++
+	defer func() { // an abandoned program: counted, noted, its stores shut down, nothing judged
+		rec := recover()
+		if rec == nil {
+			return
+		}
+		ab, ok := rec.(c01Abandoned)
+		if !ok {
+			panic(rec)
+		}
+		c01AbandonedN++
+		rep.Count("case-abandoned:machine-load")
+		rep.Note("program abandoned (machine load, not judged): %s", ab.why)
+		quiet := func(f func()) { defer func() { recover() }(); f() }
+		if a.svc != nil {
+			quiet(func() { a.svc.Close() })
+		}
+		if joiner != nil {
+			quiet(func() { joiner.Close(true) })
+		}
+		if a.st != nil {
+			quiet(func() { a.st.Close(true) })
+		}
+		if a.ly != nil {
+			quiet(func() { a.ly.Close() })
+		}
+	}()
 	a.st, a.ly = c01NewStore(t, a.dir, id)
 	if err := a.st.Open(); err != nil {
 		t.Fatalf("open: %v", err)
@@ -253,6 +346,9 @@ func c01Program(t *testing.T, rep *vfReport, r *vfRng, nReq int, nondetEndpoint 
 		code, resp := a.post(path, ct, body)
 		hist = append(hist, ep+" "+body)
 		if code != 200 {
+			if c01LoadRelated(resp) {
+				c01Abandon(fmt.Sprintf("%s -> %d %s", path, code, resp))
+			}
 			t.Fatalf("%s %s -> %d %s", path, body, code, resp)
 		}
 		rep.Count("request-" + ep)
@@ -357,9 +453,7 @@ func c01Program(t *testing.T, rep *vfReport, r *vfRng, nReq int, nondetEndpoint 
 		// --- install: snapshot with a truncated log, a new node joins
 		a.startHTTP()
 		a.post("/db/execute", "application/json", `["INSERT INTO t(a,b,c) VALUES(-1,-2,-3)"]`)
-		if err := a.st.Snapshot(1); err != nil {
-			t.Fatalf("snapshot: %v", err)
-		}
+		c01Must(t, "snapshot", c01Retry(a.st, func() error { return a.st.Snapshot(1) }))
 		a.post("/db/execute", "application/json", `["INSERT INTO t(a,b,c) VALUES(-4,-5,-6)"]`)
 		a.svc.Close()
 		live2 := c01Table(a.st)
@@ -368,15 +462,19 @@ func c01Program(t *testing.T, rep *vfReport, r *vfRng, nReq int, nondetEndpoint 
 		if err := cst.Open(); err != nil {
 			t.Fatalf("open joiner: %v", err)
 		}
-		if err := a.st.Join(&command.JoinRequest{Id: cst.ID(), Address: cst.Addr(), Voter: true}); err != nil {
-			t.Fatalf("join: %v", err)
-		}
+		joiner = cst
+		c01Must(t, "join", c01Retry(a.st, func() error {
+			return a.st.Join(&command.JoinRequest{Id: cst.ID(), Address: cst.Addr(), Voter: true})
+		}))
 		got := ""
-		for i := 0; i < 300; i++ {
+		for deadline := time.Now().Add(60 * time.Second); time.Now().Before(deadline); {
 			if got = c01Table(cst); got == live2 {
 				break
 			}
 			time.Sleep(50 * time.Millisecond)
+		}
+		if got != live2 && cst.AppliedIndex() < a.st.AppliedIndex() { // still catching up: nothing to judge
+			c01Abandon("joiner did not reach the leader's applied index within 60 s")
 		}
 		if got == live2 {
 			rep.Count("path-install-equals-live")
@@ -385,11 +483,12 @@ func c01Program(t *testing.T, rep *vfReport, r *vfRng, nReq int, nondetEndpoint 
 				fmt.Sprintf("program %v\nleader:\n%s\njoined node:\n%s", hist, c01Clip(live2), c01Clip(got)), map[string]interface{}{"program": hist})
 		}
 		// the joiner leaves again so that A is a single-node cluster for the recovery
-		if err := a.st.Remove(context.Background(), &command.RemoveNodeRequest{Id: cst.ID()}); err != nil {
-			t.Fatalf("remove joiner: %v", err)
-		}
+		c01Must(t, "remove joiner", c01Retry(a.st, func() error {
+			return a.st.Remove(context.Background(), &command.RemoveNodeRequest{Id: cst.ID()})
+		}))
 		cst.Close(true)
 		cly.Close()
+		joiner = nil
 		// --- recover: shut down, peers file, reopen
 		addr := a.st.Addr()
 		if err := a.st.Close(true); err != nil {
@@ -499,6 +598,11 @@ func TestVerifC01(t *testing.T) {
 	r := c01Rng(1)
 	classes := []string{"execute", "queued", "request", "loadtext", "execute", "request", "queued"}
 	n := vfScale(5, 56)
+	defer func() {
+		if c01AbandonedN*2 > c01Started {
+			rep.Fail("harness-could-not-run", fmt.Sprintf("%d of %d programs abandoned because of machine load", c01AbandonedN, c01Started), nil)
+		}
+	}()
 	for p := 0; p < n; p++ {
 		cdcCap := 0
 		if p%2 == 1 { // every second program: live apply observed by a stalled CDC consumer
